@@ -1297,3 +1297,46 @@ def try_definitional(E, e, env):
 @method('str.format')
 def str_format(E, s, args, node):
     return Opaque(z3.Const(fresh_name('fmt'), ValSort), 'formatted string')
+
+
+@method('SDict.setdefault')
+def sdict_setdefault(E, d, args, node):
+    key = args.pos[0]
+    default = args.pos[1] if len(args.pos) > 1 else None
+    if not isinstance(key, (str, int)):
+        raise Unsupported('symbolic key')
+    E.mutate(d.ident, node, 'dict.setdefault')
+    if key not in d.items:
+        d.items[key] = [True, default]
+        return default
+    p, v = d.items[key]
+    if isinstance(p, bool):
+        if not p:
+            d.items[key] = [True, default]
+            return default
+        return v
+    merged = E.ite(p, v, default)
+    d.items[key] = [True, merged]
+    return merged
+
+
+@method('SDict.update')
+def sdict_update(E, d, args, node):
+    other = args.pos[0] if args.pos else None
+    E.mutate(d.ident, node, 'dict.update')
+    if isinstance(other, SDict):
+        for k, (p, v) in other.items.items():
+            if isinstance(p, bool):
+                if p:
+                    d.items[k] = [True, v]
+                continue
+            if k in d.items:
+                p0, v0 = d.items[k]
+                d.items[k] = [z3.Or(p, p0 if not isinstance(p0, bool) else z3.BoolVal(p0)), E.ite(p, v, v0)]
+            else:
+                d.items[k] = [p, v]
+    elif other is not None:
+        raise Unsupported('dict.update(%r)' % (other,))
+    for k, v in args.kw.items():
+        d.items[k] = [True, v]
+    return None
